@@ -59,12 +59,27 @@ type mapIter struct {
 // newMapIter snapshots the entries in an order chosen by exploration: every
 // permutation for maps of up to MapPermMax entries, otherwise the rotations of
 // the insertion order and of its reverse (a stated bound).
-func (p *Path) newMapIter(m *smap) iter {
+func (p *Path) newMapIter(m *smap) iter { return p.newMapIterIn(m, true) }
+
+// newMapIterIn: the order is explored only if explore is set and the path's budget
+// of order-exploring iterations is not used up; otherwise insertion order.
+func (p *Path) newMapIterIn(m *smap, explore bool) iter {
 	if m == nil {
 		return &mapIter{}
 	}
 	n := len(m.ents)
 	order := make([]*ment, 0, n)
+	if n >= 2 && explore {
+		if p.mapOrderUsed >= p.eng.cfg.MapOrderBudget {
+			explore = false
+		} else {
+			p.mapOrderUsed++
+		}
+	}
+	if !explore || n < 2 {
+		order = append(order, m.ents...)
+		return &mapIter{order: order}
+	}
 	if n <= p.eng.cfg.MapPermMax {
 		rest := append([]*ment{}, m.ents...)
 		for len(rest) > 0 {
